@@ -85,7 +85,7 @@ impl Write for RawOut {
 }
 
 /// Supplies the next input line on demand (generation-time dry runs only)
-pub type Adaptive = Box<dyn FnMut(Who, usize) -> Option<Vec<u8>>>;
+pub type Adaptive = Box<dyn FnMut(Who, &[u16; 14], &[u8]) -> Option<Vec<u8>>>;
 
 pub struct SimConsole {
     sh: Rc<RefCell<Shared>>,
@@ -95,7 +95,7 @@ pub struct SimConsole {
     steps: u64,
     shadow: Vec<u8>,
     adaptive: Option<Adaptive>,
-    n_lines: usize,
+    last_regs: [u16; 14],
     /// spin guard: consecutive prompt-level reads at EOF (a real run would never end)
     eof_prompt_reads: u32,
 }
@@ -122,7 +122,7 @@ impl SimConsole {
             steps: 0,
             shadow: vec![0u8; MB],
             adaptive,
-            n_lines: 0,
+            last_regs: [0; 14],
             eof_prompt_reads: 0,
         }
     }
@@ -182,11 +182,10 @@ impl Console for SimConsole {
             Caller::Service => Who::Service,
         };
         if let Some(f) = self.adaptive.as_mut() {
-            if let Some(mut line) = f(who, self.n_lines) {
+            if let Some(mut line) = f(who, &self.last_regs, &self.shadow) {
                 self.sh.borrow_mut().stdin.append(&mut line);
             }
         }
-        self.n_lines += 1;
         let before = buf.len();
         let r = self.rd.read_line(buf);
         let res = match &r {
@@ -215,6 +214,7 @@ impl Console for SimConsole {
             return true;
         }
         let mem = mem_delta(&mut self.shadow, &vm.mem[..]);
+        self.last_regs = regs_of(vm);
         self.push(Event::Probe { idx, code: code.to_owned(), regs: regs_of(vm), mem });
         false
     }
